@@ -26,6 +26,7 @@ LEVEL_NOTE = "Trusted: clang 14 front end/CFG, extractor, rule engines; only the
 TECHNIQUE = "static analysis: typed-width inspection of expression trees with def-use closure, constant-table agreement against derived calendar values, sibling contradiction rule; carried-state / memo-key analysis of function-local statics"
 
 ML = [0, 31, 28, 31, 30, 31, 30, 31, 31, 30, 31, 30, 31]
+_TIER = "quick"     # set by run(); the value-fixed walks take larger argument sets in the thorough tier
 
 # sites where the 32-bit operand has a proven small range
 WIDTH_EXCEPTIONS = {
@@ -768,6 +769,11 @@ def r08_9(prog, rep, rid="R08.9"):
     starts = [(2019, 12, 15), (2020, 12, 15), (2019, 1, 31), (2020, 2, 28), (2020, 2, 29), (2020, 3, 1), (2019, 3, 1), (1999, 12, 31),
               (2023, 1, 1), (2024, 1, 1), (1904, 2, 29), (2095, 12, 31)]
     days = [1, 28, 29, 31, 59, 60, 80, 365, 366, 400, 1461]
+    if _TIER == "thorough":
+        import calendar as _cal
+        starts = starts + [(y_, m_, d_) for y_ in (2023, 2024) for m_ in range(1, 13) for d_ in (1, 15, _cal.monthrange(y_, m_)[1])] + \
+            [(1901, 1, 1), (1901, 3, 1), (2098, 12, 31), (2000, 2, 29), (2000, 12, 31)]
+        days = sorted(set(days + [2, 7, 27, 30, 32, 58, 61, 90, 181, 364, 367, 730, 731, 1460, 1462, 3653, 36524]))
     n = 0
     bad = []
     DAY = 86400000
@@ -795,7 +801,7 @@ def r08_9(prog, rep, rid="R08.9"):
             "%s gives %s instead of %s" % (c_, "%s-%s-%s" % tuple(g_[:3]) if g_ and None not in g_[:3] else g_, "%04d-%02d-%02d" % w_[:3]) for c_, g_, w_ in bad[:3])),
             {"examples": [[c_, list(g_) if g_ else None, list(w_)] for c_, g_, w_ in bad[:20]]})
     else:
-        rep.ok(rid, key, f.loc(), "%d additions across year ends and leap days agree with the calendar" % n)
+        rep.ok(rid, key, f.loc(), "%d additions across year ends and leap days agree with the calendar%s" % (n, " (thorough set)" if _TIER == "thorough" else ""))
 
 
 def _epoch_walk(prog, inst):
@@ -829,6 +835,8 @@ def r08_10(prog, rep, rid="R08.10"):
              (1970, 3, 1, 0, 0, 0), (2000, 2, 29, 23, 59, 59), (2001, 1, 1, 0, 0, 0), (2038, 1, 19, 3, 14, 7), (2038, 1, 19, 3, 14, 8),
              (2038, 1, 19, 12, 0, 0), (2096, 2, 29, 0, 0, 0), (2099, 12, 31, 23, 59, 59)]
     cases += [(y, m, 1, 6, 30, 0) for y in (1902, 1950, 1972, 2040, 2098) for m in range(1, 13)]
+    if _TIER == "thorough":
+        cases += [(y, m, d, 23, 59, 59) for y in range(1901, 2100) for m in range(1, 13) for d in (1, ML[m] + (1 if m == 2 and y % 4 == 0 else 0))]
     bad = {"before-1970": [], "from-1970": []}
     cnt = {"before-1970": 0, "from-1970": 0}
     for c in cases:
@@ -974,6 +982,10 @@ def r08_12(prog, rep, rid="R08.12"):
     pts = [(1901, 1, 1, 0, 0, 0, 0), (1904, 2, 28, 23, 59, 59, 999), (1904, 3, 1, 0, 0, 0, 0), (1999, 12, 31, 23, 59, 59, 0), (2000, 1, 1, 0, 0, 0, 0),
            (2000, 2, 29, 12, 0, 0, 0), (2000, 3, 1, 12, 0, 0, 0), (2024, 2, 20, 10, 0, 0, 0), (2024, 3, 2, 10, 0, 0, 0), (2024, 12, 31, 0, 0, 0, 1),
            (2025, 1, 1, 6, 30, 15, 500), (2025, 2, 28, 6, 30, 15, 499), (2025, 3, 1, 18, 0, 0, 0), (2099, 12, 31, 23, 59, 59, 999)]
+    if _TIER == "thorough":
+        import calendar as _cal
+        pts = pts + [(y_, m_, d_, 7, 8, 9, 10) for y_ in (2023, 2024) for m_ in range(1, 13) for d_ in (1, _cal.monthrange(y_, m_)[1])] + \
+            [(1950, 6, 15, 0, 0, 0, 0), (1972, 2, 29, 23, 59, 59, 999), (2096, 2, 29, 0, 0, 0, 0)]
     n = 0
     bad = []
     for a in pts:
@@ -991,7 +1003,7 @@ def r08_12(prog, rep, rid="R08.12"):
             "%s - %s gives %s ms instead of %d (%s day(s) off)" % (b_[0], b_[1], b_[2], b_[3], "?" if b_[2] is None else (b_[2] - b_[3]) // 86400000) for b_ in bad[:3])),
             {"examples": [list(b_) for b_ in bad[:20]]})
     else:
-        rep.ok(rid, key, f.loc(), "%d differences (14 instants, every ordered pair) agree with the calendar" % n)
+        rep.ok(rid, key, f.loc(), "%d differences (%d instants, every ordered pair) agree with the calendar" % (n, len(pts)))
 
 
 def r08_13(prog, rep, rid="R08.13"):
@@ -1004,6 +1016,8 @@ def r08_13(prog, rep, rid="R08.13"):
     days = [(1970, 1, 1), (1970, 2, 28), (1970, 3, 1), (1971, 2, 28), (1971, 3, 1), (1972, 2, 28), (1972, 2, 29), (1972, 3, 1), (1999, 12, 31),
             (2000, 1, 1), (2000, 2, 29), (2000, 3, 1), (2001, 3, 1), (2037, 12, 31), (2038, 1, 19), (2038, 1, 20), (2096, 2, 29), (2099, 12, 31)]
     days += [(y, m, d) for y in (2023, 2024) for m in range(1, 13) for d in (1, calendar.monthrange(y, m)[1])]
+    if _TIER == "thorough":
+        days += [(y, m, d) for y in range(1970, 2100) for m in range(1, 13) for d in (1, calendar.monthrange(y, m)[1]) if (y, m, d) not in days]
     from ..absw import AbsWalk, eval_in
     cfg = f.cfg
     tp = f.params[0]["n"]
@@ -1037,6 +1051,8 @@ def r08_13(prog, rep, rid="R08.13"):
 
 
 def run(prog, rep, tier, snap):
+    global _TIER
+    _TIER = tier
     rep.rule("R08.1", "64-bit evaluation of millisecond quantities", 6)
     rep.call(r08_1, prog, rep)
     rep.rule("R08.2", "calendar tables, unit macros, leap predicates and epoch constants agree", 15)
